@@ -7,6 +7,7 @@ builder shuts the internal job server down (InternalJobServer.shutdown, builder.
 the last task of the invocation: the end-to-end witness of "every token that was taken is given back".
 """
 import fcntl
+import os
 import struct
 import sys
 import termios
@@ -35,6 +36,8 @@ def install_c06(rec):
 
     bb.InternalJobServer.__init__ = __init__
     bb.InternalJobServer.shutdown = shutdown
+    # which Bob is under test (the venv also knows a `bob` package: a vanished --repo would silently fall back to it)
+    rec.emit("bobModule", file=os.path.realpath(bb.__file__))
 
 
 def main(argv):
